@@ -147,6 +147,32 @@ def csr_variants(rng, A, fmt):
     return M, (M.indptr, M.indices, M.data), dense, 'hand'
 
 
+LAYOUTS = ['contiguous', 'strided', 'reversed', 'column-of-C-2d', 'row-of-F-2d']
+
+
+def as_view(v, style, rng):
+    """an array with the values of `v` in the given memory layout (the caller's vector the sweep must update in place)"""
+    v = np.asarray(v)
+    n = len(v)
+    if style == 'strided':
+        base = np.full(2 * n, 7, dtype=v.dtype); view = base[::2]
+    elif style == 'reversed':
+        base = np.zeros(n, dtype=v.dtype); view = base[::-1]
+    elif style == 'column-of-C-2d':
+        base = np.full((n, 3), 7, dtype=v.dtype, order='C'); view = base[:, 1]
+    elif style == 'row-of-F-2d':
+        base = np.full((3, n), 7, dtype=v.dtype, order='F'); view = base[1, :]
+    else:
+        base = np.zeros(n, dtype=v.dtype); view = base
+    view[...] = v
+    return view
+
+
+def SCALES(rng):
+    """dyadic scaling 2^k, k in -60..40 (keeps the Rat model exact)"""
+    return float(2.0 ** int(rng.choice([-60, -40, -20, -10, 0, 0, 0, 10, 40])))
+
+
 def gen_hspace(rng):
     from pyiga import bspline, hierarchical
     dim = int(rng.choice([1, 1, 2]))
@@ -229,30 +255,38 @@ def run(ctx):
         ctx.count('fmt=' + fmt); ctx.count('matrix=' + name); ctx.count('sweep=' + sweep)
         ix = '0' if indices is None else '1 ' + plist(indices)
         sw = SWEEPS.index(sweep)
+        # memory layout of the caller's vectors: the sweep must update *this* array in place
+        lx = LAYOUTS[int(rng.integers(0, len(LAYOUTS)))] if rng.integers(0, 2) else 'contiguous'
+        lb = LAYOUTS[int(rng.integers(0, len(LAYOUTS)))] if rng.integers(0, 3) == 0 else 'contiguous'
+        li = LAYOUTS[int(rng.integers(0, 3))] if (indices is not None and rng.integers(0, 3) == 0) else 'contiguous'
+        bv = as_view(b, lb, rng)
+        iarg = indices if (indices is None or li == 'contiguous') else as_view(np.array(indices, dtype=np.intc), li, rng)
+        ctx.count('layout x=' + lx); ctx.count('layout b=' + lb)
+        layout = 'x:%s b:%s indices:%s' % (lx, lb, li)
         if fmt == 'dense':
-            xi = x.copy()
-            tag, _, _ = guarded(lambda: solvers.gauss_seidel(A, xi, b, iterations=iterations, indices=indices, sweep=sweep))
+            xi = as_view(x, lx, rng)
+            tag, _, _ = guarded(lambda: solvers.gauss_seidel(A, xi, bv, iterations=iterations, indices=iarg, sweep=sweep))
             add('gsd %d %s %s %s %s %d %d' % (n, fl(A), fl(b), fl(x), ix, iterations, sw),
-                ('gs', fmt, name, A, A, b, x, indices, iterations, sweep, tag, xi, mode == 0, False))
+                ('gs', fmt, name, A, A, b, x, indices, iterations, sweep, tag, xi, mode == 0, False, layout))
         else:
             M, (ptr, ind, dat), dense, flags = csr_variants(rng, A, fmt)
-            xi = x.copy()
-            tag, _, _ = guarded(lambda: solvers.gauss_seidel(M, xi, b, iterations=iterations, indices=indices, sweep=sweep))
+            xi = as_view(x, lx, rng)
+            tag, _, _ = guarded(lambda: solvers.gauss_seidel(M, xi, bv, iterations=iterations, indices=iarg, sweep=sweep))
             dup = fmt == 'csr-dupdiag' and any(sum(1 for jj in range(ptr[i], ptr[i + 1]) if ind[jj] == i) > 1 for i in range(n))
             add('gs %d %s %s %s %s %s %s %d %d' % (n, plist(ptr), plist(ind), fl(dat), fl(b), fl(x), ix, iterations, sw),
-                ('gs', fmt, name, A, dense, b, x, indices, iterations, sweep, tag, xi, mode == 0, dup))
+                ('gs', fmt, name, A, dense, b, x, indices, iterations, sweep, tag, xi, mode == 0, dup, layout))
             if dup:
                 ctx.count('non-canonical CSR with duplicate diagonal entries')
             # the two Cython kernels called directly (forward/backward only)
             if rng.integers(0, 4) == 0 and sweep != 'symmetric' and fmt == 'csr':
-                xi2 = x.copy()
+                xi2 = as_view(x, lx, rng)
                 if indices is None:
                     st = (0, n, 1) if sweep == 'forward' else (n - 1, -1, -1)
-                    tag2, _, _ = guarded(lambda: [relaxation_cy.gauss_seidel(M.indptr, M.indices, M.data, xi2, b, *st) for _ in range(iterations)])
+                    tag2, _, _ = guarded(lambda: [relaxation_cy.gauss_seidel(M.indptr, M.indices, M.data, xi2, bv, *st) for _ in range(iterations)])
                 else:
-                    ia = np.asarray(indices, dtype=np.intc)
-                    tag2, _, _ = guarded(lambda: [relaxation_cy.gauss_seidel_indexed(M.indptr, M.indices, M.data, xi2, b, ia, sweep == 'backward') for _ in range(iterations)])
-                add(req[-1], ('gs', 'cython-direct', name, A, dense, b, x, indices, iterations, sweep, tag2, xi2, mode == 0, False))
+                    ia = np.asarray(indices, dtype=np.intc) if li == 'contiguous' else iarg
+                    tag2, _, _ = guarded(lambda: [relaxation_cy.gauss_seidel_indexed(M.indptr, M.indices, M.data, xi2, bv, ia, sweep == 'backward') for _ in range(iterations)])
+                add(req[-1], ('gs', 'cython-direct', name, A, dense, b, x, indices, iterations, sweep, tag2, xi2, mode == 0, False, layout))
 
     # ------------------------------------------------------------------ stream mg
     nhs = 40 if quick else 400
@@ -329,6 +363,7 @@ def run(ctx):
             # whole solve through solve_hmultigrid (glue + iterative_solve)
             if rep == 0 and smoother != 'exact':
                 tol = float(rng.choice([0.5, 1e-1, 1e-2, 1e-4])); maxiter = int(rng.choice([1, 2, 3, 4]))
+                f = f * SCALES(rng)
                 tag2, res2, out2 = guarded(lambda: solvers.solve_hmultigrid(hs, A, f, strategy=strategy, smoother=smoother, smooth_steps=2, tol=tol, maxiter=maxiter))
                 head2 = 'mgsolve %d %s %s %s %s %d %d' % (L, plist(sizes), fl(Ad), ' '.join(fl(P) for P in Pd),
                                                      ' '.join(plist(ii) for ii in inds), SMOOTHERS.index(smoother), 2)
@@ -340,8 +375,10 @@ def run(ctx):
     nis = 300 if quick else 4000
     for it in range(nis):
         c = float(rng.choice([0.5, 0.25, -0.5, 1.0, 2.0, 0.0])); a = float(rng.choice([1.0, 2.0, -1.0, 4.0]))
-        f = float(rng.integers(-4, 5)); d = float(rng.integers(-2, 3)) / 2
-        hx = bool(rng.integers(0, 2)); x0 = float(rng.integers(-3, 4))
+        sc = SCALES(rng)
+        f = float(rng.integers(-4, 5)) * sc; d = float(rng.integers(-2, 3)) / 2 * sc
+        hx = bool(rng.integers(0, 2)); x0 = float(rng.integers(-3, 4)) * sc
+        ctx.count('isolve scale=2^%d' % int(round(math.log2(sc))))
         tol = float(rng.choice([0.5, 0.125, 2.0 ** -10, 2.0 ** -20])); maxiter = int(rng.choice([0, 1, 2, 3, 10, 40]))
         Aop = np.array([[a]])
         tag, res, out = guarded(lambda: solvers.iterative_solve(lambda x_: c * x_ + d, Aop, np.array([f]), x0=(np.array([x0]) if hx else None), tol=tol, maxiter=maxiter))
@@ -366,9 +403,12 @@ def run(ctx):
         if active is not None and rng.integers(0, 3) > 0:
             inact = [i for i in range(n) if i not in active]
             f[inact] = rng.integers(-4, 5, size=len(inact)).astype(float) * float(rng.choice([16, 256, 1024]))   # large entries on eliminated dofs
+        sc = SCALES(rng)
+        f = f * sc
         cvec = w * f
         hx = bool(rng.integers(0, 3) == 0)
-        x0 = rng.integers(-2, 3, size=n).astype(float) if hx else None
+        x0 = rng.integers(-2, 3, size=n).astype(float) * sc if hx else None
+        ctx.count('isolvev scale=2^%d' % int(round(math.log2(sc))))
         tol = float(rng.choice([0.5, 0.25, 2.0 ** -4, 2.0 ** -8])); maxiter = int(rng.choice([1, 2, 3, 5, 8]))
         aarg = None if active is None else (np.array(active) if rng.integers(0, 2) else list(active))
         tag, res, out = guarded(lambda: solvers.iterative_solve(lambda x_: Bm @ x_ + cvec, Aop, f, x0=(None if x0 is None else x0.copy()),
@@ -487,10 +527,10 @@ def compare(ctx, r, g, m):
     if g == 'bad-request':
         return (op + '-corr', 'driver rejected the request', {}, False)
     if op == 'gs':
-        _, fmt, name, A, dense, b, x, indices, iterations, sweep, tag, xi, at_solution, dup = m
+        _, fmt, name, A, dense, b, x, indices, iterations, sweep, tag, xi, at_solution, dup, layout = m
         n = len(b)
         call = {'call': 'solvers.gauss_seidel(A, x, b, iterations, indices, sweep)' if fmt != 'cython-direct' else 'relaxation_cy kernel called directly',
-                'format': fmt, 'A_dense': dense.tolist(), 'b': b.tolist(), 'x': x.tolist(), 'indices': indices, 'iterations': iterations, 'sweep': sweep,
+                'format': fmt, 'memory_layout': layout, 'A_dense': dense.tolist(), 'b': b.tolist(), 'x': x.tolist(), 'indices': indices, 'iterations': iterations, 'sweep': sweep,
                 'implementation_x': np.asarray(xi).tolist(), 'implementation': tag}
         if tag != 'ok':
             return ('relax-corr:' + fmt, 'gauss_seidel raised %s on a system with nonzero diagonal' % tag, call, True)
@@ -578,7 +618,7 @@ def compare(ctx, r, g, m):
             if rat and rat[-1] >= 0 and rat[-1] < Fr(1, 10 ** 22):
                 ctx.count('mgsolve: skipped (residual at rounding level)'); return None
             return ('mgsolve-corr', 'solve_hmultigrid iteration count %s, model %s' % (kimpl, ks) + ('; ' + verdict if verdict else ''), call, verdict is not None)
-        scale = 1 + max(abs(v) for v in xm)
+        scale = max([abs(v) for v in xm] + [abs(Fr(float(v))) for v in f])
         if not close(x, xm, scale * Fr(int(kappa) + 1000, 10 ** 11) * max(1, len(rat))):
             return ('mgsolve-corr', 'solve_hmultigrid iterate differs from the model' + ('; ' + verdict if verdict else ''), call, verdict is not None)
         return None if verdict is None else ('mgsolve-corr', 'solve_hmultigrid: ' + verdict, call, True)
@@ -600,7 +640,7 @@ def compare(ctx, r, g, m):
         if ' ; ' in g:
             xm_, km_ = g.split(' ; ')
             # same iteration count; iterate equal up to rounding of the (up to 40) affine steps
-            if km_ == want.split(' ; ')[1] and abs(Fr(float(np.ravel(x)[0])) - Fr(xm_)) <= (1 + abs(Fr(xm_))) * Fr(1, 10 ** 12):
+            if km_ == want.split(' ; ')[1] and abs(Fr(float(np.ravel(x)[0])) - Fr(xm_)) <= (abs(Fr(xm_)) + abs(Fr(float(d))) + abs(Fr(float(f)))) * Fr(1, 10 ** 12):
                 return None
         # oracle: replay the definition
         xx = 0.0 if x0 is None else x0
@@ -648,7 +688,7 @@ def compare(ctx, r, g, m):
         problems = []
         if kimpl != ks:
             problems.append('iteration count (impl %s, model %s)' % (kimpl, ks))
-        scale = 1 + max(abs(v) for v in xm)
+        scale = max([abs(v) for v in xm] + [abs(Fr(float(v))) for v in cvec] + [abs(Fr(float(v))) for v in (x0 if x0 is not None else [0.0])])
         if not problems and not close(x, xm, scale * Fr(1, 10 ** 10)):
             problems.append('iterate')
         if not problems and verdict is None:
